@@ -31,7 +31,7 @@ func init() {
 		Directed:   c11Directed,
 		Run:        c11Run,
 		MustHit:    []string{"key=field", "key=tls", "key=setter", "key=both", "sp_restart", "detached", "inline", "pkcs1v15", "oaep_sha512", "cbc", "gcm", "zero_tail", "len_mod16=0", "twin"},
-		RandomRuns: map[string]int{"quick": 300, "thorough": 8000},
+		RandomRuns: map[string]int{"quick": 1200, "thorough": 8000},
 		Assumptions: []string{"encrypted layouts are exercised with signature checking on (with SkipSignatureValidation the library never decrypts; outside this property's quantifier)",
 			"OAEP / PKCS#1 v1.5 ciphertext bytes are not replayable in Go (hidden randomness) and are excluded from run digests"},
 	})
